@@ -10,8 +10,13 @@ code -> spec: TLC judges the recorded real states:
   C39  Mon_CrdtConv   value bounds / equal-knowledge-equal-value / join        (steps.ndjson)
   C40  Mon_CrdtCodec  decode(encode(x)) keeps value + metadata + merge results (codec.ndjson)
   all  Trace_Crdt     step-wise conformance with the transcription (drift, not a verdict)
-Design level: Crdt.tla with Defects = {} satisfies Laws and Convergence (tlc_must_hold); with the Defects of the
-known findings it must violate them (otherwise the Defects set is stale)."""
+Design level: Crdt.tla with Defects = {} satisfies Laws, Growing and Convergence (tlc_must_hold); with the Defects of
+the known findings it must violate them (otherwise the Defects set is stale).
+
+C41 - tombstones in the replicator: specs/Crdt/Replicator.tla (one action per handler of actor/replicator.go);
+TLC-generated message interleavings are executed by harness/cmd/crdtrepl on REAL replicator actors (three in-process
+actor systems, publications captured from the real TopicActor); Mon_Replicator judges the public Get results,
+Trace_Replicator validates store / tombstones / versions / publications step by step."""
 import collections, json, os, re
 from concurrent.futures import ThreadPoolExecutor
 import vlib
